@@ -508,6 +508,52 @@ Definition handle_relativity (f : name -> name -> bool -> res name)
 Definition successor := handle_relativity absolute_successor.
 Definition predecessor := handle_relativity absolute_predecessor.
 
+(* ---------- dns.tokenizer.Tokenizer.get / get_name: the identifier path ---------- *)
+(* A fresh tokenizer (not quoting, multiline 0, nothing ungotten) reading a token that starts
+   with a non-delimiter: skip_whitespace, then the `while True` loop of get().  The branches of
+   the loop that are only taken while the token is still empty and a delimiter/EOF is read
+   (parentheses, quotes, comments, EOL/EOF tokens) are outside this model: iNotModelled. *)
+Definition eSyntaxError := 20.     (* dns.exception.SyntaxError *)
+Definition eUnexpectedEnd := 21.   (* dns.exception.UnexpectedEnd *)
+Definition iNotModelled := 197.
+
+Definition tok_delim (c : Z) : bool :=
+  (c =? 32) || (c =? 9) || (c =? 10) || (c =? 59) || (c =? 40) || (c =? 41) || (c =? 34).
+
+Fixpoint tok_skip_ws (i : list Z) : list Z :=
+  match i with
+  | c :: r => if (c =? 32) || (c =? 9) then tok_skip_ws r else i
+  | [] => []
+  end.
+
+(* token kept reversed; returns (token.value, remaining input) *)
+Fixpoint tok_scan (fuel : nat) (i : list Z) (tok : list Z) : res (list Z * list Z) :=
+  match fuel with
+  | O => Internal iFuel
+  | S f =>
+      match i with
+      | [] => match tok with [] => Internal iNotModelled | _ => Ok (rev tok, []) end
+      | c :: r =>
+          if tok_delim c then
+            match tok with [] => Internal iNotModelled | _ => Ok (rev tok, i) end   (* _unget_char(c); break *)
+          else if c =? 92 then
+            match r with
+            | [] => Lib eUnexpectedEnd
+            | c2 :: r2 => if c2 =? 10 then Lib eUnexpectedEnd else tok_scan f r2 (c2 :: 92 :: tok)
+            end
+          else tok_scan f r (c :: tok)
+      end
+  end.
+
+Definition tok_get_identifier (text : list Z) : res (list Z * list Z) :=
+  let i := tok_skip_ws text in tok_scan (S (length i)) i [].
+
+(* Tokenizer.get_name(origin) = as_name(get(), origin): from_text then choose_relativity(origin, False) *)
+Definition tok_get_name (text : list Z) (origin : option name) : res name :=
+  do vr <- tok_get_identifier text;
+  do n <- from_text (fst vr) origin;
+  choose_relativity n origin false.
+
 (* ---------- harness interface ---------- *)
 Definition obs_of_name (n : name) : obs := L (map B n).
 Definition obs_of_res {A} (f : A -> obs) (r : res A) : obs :=
@@ -603,6 +649,11 @@ Definition run (c : obs) : obs :=
       match name_of_obs a, oname_of_obs o with
       | Some a, Some o => obs_of_res obs_of_name (choose_relativity a o (rel =? 1))
       | _, _ => E eBadCase end
+  | L [I 18; B t; o] =>
+      match oname_of_obs o with
+      | Some o => L [obs_of_res (fun vr => L [B (fst vr); B (snd vr)]) (tok_get_identifier t);
+                     obs_of_res obs_of_name (tok_get_name t o)]
+      | None => E eBadCase end
   | L [I 17; B w; I off] =>
       obs_of_res (fun r => L [obs_of_name (fst (fst r)); I (Z.of_nat (snd (fst r)));
                               L (map (fun t => I (Z.of_nat t)) (snd r))])
